@@ -69,6 +69,10 @@ func main() {
 		fmt.Printf("Parse error: %s\n", err)
 		os.Exit(1)
 	}
+	if scanner.ErrorCount > 0 {
+		fmt.Printf("Parse error: %d lexical error(s) in %s\n", scanner.ErrorCount, cfg.SourceFile())
+		os.Exit(1)
+	}
 
 	g := grammar.(*ast.Grammar)
 
